@@ -66,14 +66,21 @@ package common
 //@ func (spec *Spec) ForkVersion(slot) v
 //@   property C14
 //@   requires spec != nil && spec.SLOTS_PER_EPOCH != 0
-//@   requires ordered: spec.ALTAIR_FORK_EPOCH <= spec.BELLATRIX_FORK_EPOCH && spec.BELLATRIX_FORK_EPOCH <= spec.CAPELLA_FORK_EPOCH && spec.CAPELLA_FORK_EPOCH <= spec.DENEB_FORK_EPOCH && spec.DENEB_FORK_EPOCH <= spec.ELECTRA_FORK_EPOCH && spec.ELECTRA_FORK_EPOCH <= spec.FULU_FORK_EPOCH
-//@   ensures phase0: fork_idx(slot / spec.SLOTS_PER_EPOCH, spec.ALTAIR_FORK_EPOCH, spec.BELLATRIX_FORK_EPOCH, spec.CAPELLA_FORK_EPOCH, spec.DENEB_FORK_EPOCH, spec.ELECTRA_FORK_EPOCH, spec.FULU_FORK_EPOCH) == 0 ==> v == spec.GENESIS_FORK_VERSION
-//@   ensures altair: fork_idx(slot / spec.SLOTS_PER_EPOCH, spec.ALTAIR_FORK_EPOCH, spec.BELLATRIX_FORK_EPOCH, spec.CAPELLA_FORK_EPOCH, spec.DENEB_FORK_EPOCH, spec.ELECTRA_FORK_EPOCH, spec.FULU_FORK_EPOCH) == 1 ==> v == spec.ALTAIR_FORK_VERSION
-//@   ensures bellatrix: fork_idx(slot / spec.SLOTS_PER_EPOCH, spec.ALTAIR_FORK_EPOCH, spec.BELLATRIX_FORK_EPOCH, spec.CAPELLA_FORK_EPOCH, spec.DENEB_FORK_EPOCH, spec.ELECTRA_FORK_EPOCH, spec.FULU_FORK_EPOCH) == 2 ==> v == spec.BELLATRIX_FORK_VERSION
-//@   ensures capella: fork_idx(slot / spec.SLOTS_PER_EPOCH, spec.ALTAIR_FORK_EPOCH, spec.BELLATRIX_FORK_EPOCH, spec.CAPELLA_FORK_EPOCH, spec.DENEB_FORK_EPOCH, spec.ELECTRA_FORK_EPOCH, spec.FULU_FORK_EPOCH) == 3 ==> v == spec.CAPELLA_FORK_VERSION
-//@   ensures deneb: fork_idx(slot / spec.SLOTS_PER_EPOCH, spec.ALTAIR_FORK_EPOCH, spec.BELLATRIX_FORK_EPOCH, spec.CAPELLA_FORK_EPOCH, spec.DENEB_FORK_EPOCH, spec.ELECTRA_FORK_EPOCH, spec.FULU_FORK_EPOCH) == 4 ==> v == spec.DENEB_FORK_VERSION
-//@   ensures electra: fork_idx(slot / spec.SLOTS_PER_EPOCH, spec.ALTAIR_FORK_EPOCH, spec.BELLATRIX_FORK_EPOCH, spec.CAPELLA_FORK_EPOCH, spec.DENEB_FORK_EPOCH, spec.ELECTRA_FORK_EPOCH, spec.FULU_FORK_EPOCH) == 5 ==> v == spec.ELECTRA_FORK_VERSION
-//@   ensures fulu: fork_idx(slot / spec.SLOTS_PER_EPOCH, spec.ALTAIR_FORK_EPOCH, spec.BELLATRIX_FORK_EPOCH, spec.CAPELLA_FORK_EPOCH, spec.DENEB_FORK_EPOCH, spec.ELECTRA_FORK_EPOCH, spec.FULU_FORK_EPOCH) == 6 ==> v == spec.FULU_FORK_VERSION
+//@   ensures phase0: spec.ALTAIR_FORK_EPOCH <= spec.BELLATRIX_FORK_EPOCH && spec.BELLATRIX_FORK_EPOCH <= spec.CAPELLA_FORK_EPOCH && spec.CAPELLA_FORK_EPOCH <= spec.DENEB_FORK_EPOCH && spec.DENEB_FORK_EPOCH <= spec.ELECTRA_FORK_EPOCH && spec.ELECTRA_FORK_EPOCH <= spec.FULU_FORK_EPOCH && fork_idx(slot / spec.SLOTS_PER_EPOCH, spec.ALTAIR_FORK_EPOCH, spec.BELLATRIX_FORK_EPOCH, spec.CAPELLA_FORK_EPOCH, spec.DENEB_FORK_EPOCH, spec.ELECTRA_FORK_EPOCH, spec.FULU_FORK_EPOCH) == 0 ==> v == spec.GENESIS_FORK_VERSION
+//@   ensures altair: spec.ALTAIR_FORK_EPOCH <= spec.BELLATRIX_FORK_EPOCH && spec.BELLATRIX_FORK_EPOCH <= spec.CAPELLA_FORK_EPOCH && spec.CAPELLA_FORK_EPOCH <= spec.DENEB_FORK_EPOCH && spec.DENEB_FORK_EPOCH <= spec.ELECTRA_FORK_EPOCH && spec.ELECTRA_FORK_EPOCH <= spec.FULU_FORK_EPOCH && fork_idx(slot / spec.SLOTS_PER_EPOCH, spec.ALTAIR_FORK_EPOCH, spec.BELLATRIX_FORK_EPOCH, spec.CAPELLA_FORK_EPOCH, spec.DENEB_FORK_EPOCH, spec.ELECTRA_FORK_EPOCH, spec.FULU_FORK_EPOCH) == 1 ==> v == spec.ALTAIR_FORK_VERSION
+//@   ensures bellatrix: spec.ALTAIR_FORK_EPOCH <= spec.BELLATRIX_FORK_EPOCH && spec.BELLATRIX_FORK_EPOCH <= spec.CAPELLA_FORK_EPOCH && spec.CAPELLA_FORK_EPOCH <= spec.DENEB_FORK_EPOCH && spec.DENEB_FORK_EPOCH <= spec.ELECTRA_FORK_EPOCH && spec.ELECTRA_FORK_EPOCH <= spec.FULU_FORK_EPOCH && fork_idx(slot / spec.SLOTS_PER_EPOCH, spec.ALTAIR_FORK_EPOCH, spec.BELLATRIX_FORK_EPOCH, spec.CAPELLA_FORK_EPOCH, spec.DENEB_FORK_EPOCH, spec.ELECTRA_FORK_EPOCH, spec.FULU_FORK_EPOCH) == 2 ==> v == spec.BELLATRIX_FORK_VERSION
+//@   ensures capella: spec.ALTAIR_FORK_EPOCH <= spec.BELLATRIX_FORK_EPOCH && spec.BELLATRIX_FORK_EPOCH <= spec.CAPELLA_FORK_EPOCH && spec.CAPELLA_FORK_EPOCH <= spec.DENEB_FORK_EPOCH && spec.DENEB_FORK_EPOCH <= spec.ELECTRA_FORK_EPOCH && spec.ELECTRA_FORK_EPOCH <= spec.FULU_FORK_EPOCH && fork_idx(slot / spec.SLOTS_PER_EPOCH, spec.ALTAIR_FORK_EPOCH, spec.BELLATRIX_FORK_EPOCH, spec.CAPELLA_FORK_EPOCH, spec.DENEB_FORK_EPOCH, spec.ELECTRA_FORK_EPOCH, spec.FULU_FORK_EPOCH) == 3 ==> v == spec.CAPELLA_FORK_VERSION
+//@   ensures deneb: spec.ALTAIR_FORK_EPOCH <= spec.BELLATRIX_FORK_EPOCH && spec.BELLATRIX_FORK_EPOCH <= spec.CAPELLA_FORK_EPOCH && spec.CAPELLA_FORK_EPOCH <= spec.DENEB_FORK_EPOCH && spec.DENEB_FORK_EPOCH <= spec.ELECTRA_FORK_EPOCH && spec.ELECTRA_FORK_EPOCH <= spec.FULU_FORK_EPOCH && fork_idx(slot / spec.SLOTS_PER_EPOCH, spec.ALTAIR_FORK_EPOCH, spec.BELLATRIX_FORK_EPOCH, spec.CAPELLA_FORK_EPOCH, spec.DENEB_FORK_EPOCH, spec.ELECTRA_FORK_EPOCH, spec.FULU_FORK_EPOCH) == 4 ==> v == spec.DENEB_FORK_VERSION
+//@   ensures electra: spec.ALTAIR_FORK_EPOCH <= spec.BELLATRIX_FORK_EPOCH && spec.BELLATRIX_FORK_EPOCH <= spec.CAPELLA_FORK_EPOCH && spec.CAPELLA_FORK_EPOCH <= spec.DENEB_FORK_EPOCH && spec.DENEB_FORK_EPOCH <= spec.ELECTRA_FORK_EPOCH && spec.ELECTRA_FORK_EPOCH <= spec.FULU_FORK_EPOCH && fork_idx(slot / spec.SLOTS_PER_EPOCH, spec.ALTAIR_FORK_EPOCH, spec.BELLATRIX_FORK_EPOCH, spec.CAPELLA_FORK_EPOCH, spec.DENEB_FORK_EPOCH, spec.ELECTRA_FORK_EPOCH, spec.FULU_FORK_EPOCH) == 5 ==> v == spec.ELECTRA_FORK_VERSION
+//@   ensures fulu: spec.ALTAIR_FORK_EPOCH <= spec.BELLATRIX_FORK_EPOCH && spec.BELLATRIX_FORK_EPOCH <= spec.CAPELLA_FORK_EPOCH && spec.CAPELLA_FORK_EPOCH <= spec.DENEB_FORK_EPOCH && spec.DENEB_FORK_EPOCH <= spec.ELECTRA_FORK_EPOCH && spec.ELECTRA_FORK_EPOCH <= spec.FULU_FORK_EPOCH && fork_idx(slot / spec.SLOTS_PER_EPOCH, spec.ALTAIR_FORK_EPOCH, spec.BELLATRIX_FORK_EPOCH, spec.CAPELLA_FORK_EPOCH, spec.DENEB_FORK_EPOCH, spec.ELECTRA_FORK_EPOCH, spec.FULU_FORK_EPOCH) == 6 ==> v == spec.FULU_FORK_VERSION
+// for every ordering of the fork epochs, ordered or not: the one selection every lookup agrees on (fork_sel, /verif/spec/forks.gvc)
+//@   ensures same_phase0: fork_sel(slot / spec.SLOTS_PER_EPOCH, spec.ALTAIR_FORK_EPOCH, spec.BELLATRIX_FORK_EPOCH, spec.CAPELLA_FORK_EPOCH, spec.DENEB_FORK_EPOCH, spec.ELECTRA_FORK_EPOCH, spec.FULU_FORK_EPOCH) == 0 ==> v == spec.GENESIS_FORK_VERSION
+//@   ensures same_altair: fork_sel(slot / spec.SLOTS_PER_EPOCH, spec.ALTAIR_FORK_EPOCH, spec.BELLATRIX_FORK_EPOCH, spec.CAPELLA_FORK_EPOCH, spec.DENEB_FORK_EPOCH, spec.ELECTRA_FORK_EPOCH, spec.FULU_FORK_EPOCH) == 1 ==> v == spec.ALTAIR_FORK_VERSION
+//@   ensures same_bellatrix: fork_sel(slot / spec.SLOTS_PER_EPOCH, spec.ALTAIR_FORK_EPOCH, spec.BELLATRIX_FORK_EPOCH, spec.CAPELLA_FORK_EPOCH, spec.DENEB_FORK_EPOCH, spec.ELECTRA_FORK_EPOCH, spec.FULU_FORK_EPOCH) == 2 ==> v == spec.BELLATRIX_FORK_VERSION
+//@   ensures same_capella: fork_sel(slot / spec.SLOTS_PER_EPOCH, spec.ALTAIR_FORK_EPOCH, spec.BELLATRIX_FORK_EPOCH, spec.CAPELLA_FORK_EPOCH, spec.DENEB_FORK_EPOCH, spec.ELECTRA_FORK_EPOCH, spec.FULU_FORK_EPOCH) == 3 ==> v == spec.CAPELLA_FORK_VERSION
+//@   ensures same_deneb: fork_sel(slot / spec.SLOTS_PER_EPOCH, spec.ALTAIR_FORK_EPOCH, spec.BELLATRIX_FORK_EPOCH, spec.CAPELLA_FORK_EPOCH, spec.DENEB_FORK_EPOCH, spec.ELECTRA_FORK_EPOCH, spec.FULU_FORK_EPOCH) == 4 ==> v == spec.DENEB_FORK_VERSION
+//@   ensures same_electra: fork_sel(slot / spec.SLOTS_PER_EPOCH, spec.ALTAIR_FORK_EPOCH, spec.BELLATRIX_FORK_EPOCH, spec.CAPELLA_FORK_EPOCH, spec.DENEB_FORK_EPOCH, spec.ELECTRA_FORK_EPOCH, spec.FULU_FORK_EPOCH) == 5 ==> v == spec.ELECTRA_FORK_VERSION
+//@   ensures same_fulu: fork_sel(slot / spec.SLOTS_PER_EPOCH, spec.ALTAIR_FORK_EPOCH, spec.BELLATRIX_FORK_EPOCH, spec.CAPELLA_FORK_EPOCH, spec.DENEB_FORK_EPOCH, spec.ELECTRA_FORK_EPOCH, spec.FULU_FORK_EPOCH) == 6 ==> v == spec.FULU_FORK_VERSION
 
 // ---------------------------------------------------------------- versioning.go (C14)
 
